@@ -21,9 +21,10 @@ None == "None"
 \* false (False), zerof (0.0), emptyhtml (HTML("")): falsy but valid; emptydict ({}), emptyset (set()): falsy and unsupported
 Vals == {"str", "num", "zero", "empty", "none", "dots", "repr", "tag", "tfy", "list", "bad", "badlist",
          "dep", "depeq", "false", "zerof", "emptyhtml", "emptydict", "emptyset", "reprtuple", "reprstr",
-         "fraction", "decimal", "complex"}
+         "fraction", "decimal", "complex", "itfy", "ibad"}
 \* (numbers that are not int / float - Fraction, Decimal, complex - are not valid children)
-BadVals == {"bad", "badlist", "emptydict", "emptyset", "fraction", "decimal", "complex"}
+\* itfy / ibad: two instances of ONE class, the first of which was given a tagify() of its own
+BadVals == {"bad", "badlist", "emptydict", "emptyset", "fraction", "decimal", "complex", "ibad"}
 
 \* what append(value) stores, after the wrapper's case analysis (wrap_displayhook_handler)
 Stored(v) ==
@@ -34,7 +35,7 @@ Stored(v) ==
     [] v \in {"repr", "reprtuple", "reprstr"} -> <<"h:<r>">>   \* _repr_html_() result kept as HTML, also when the
                                                               \* object is a tuple / str subclass as well
     [] v = "tag"   -> <<"t:other">>
-    [] v = "tfy"   -> <<"f:obj">>
+    [] v \in {"tfy", "itfy"} -> <<"f:obj">>
     [] v = "list"  -> <<"s:a", "s:1">>
     [] v \in {"dep", "depeq"} -> <<"d:shared">>   \* every display appends, also of a dependency that is already a child
     [] v = "false" -> <<"s:False">>
@@ -80,12 +81,15 @@ StepF(s, e) ==
     [] e.act = "Display" -> DisplayF(s, e.v)
     \* the same inside a try/except placed IN the block: an invalid value is rejected right there and nothing is left behind
     [] e.act = "DisplayC" -> IF e.v \in BadVals THEN s ELSE DisplayF(s, e.v)
+    \* the innermost open tag gets a NEW child list holding the same children (tag.children = TagList(...)): the block
+    \* belongs to the tag, not to the list object it had when it was entered
+    [] e.act = "Relist"  -> s
     [] e.act = "Raise"   -> RaiseF(s)
     [] e.act = "Exit"    -> ExitF(s)
 \* which events a well-formed program can produce in state s
 Enabled(s, e) ==
   CASE e.act = "Enter"   -> s.exc = None /\ (s.prev[e.t] # None => Active(s, e.t))
-    [] e.act \in {"Display", "DisplayC"} -> s.exc = None /\ s.stack # <<>>
+    [] e.act \in {"Display", "DisplayC", "Relist"} -> s.exc = None /\ s.stack # <<>>
     [] e.act = "Raise"   -> s.exc = None /\ s.stack # <<>>
     [] e.act = "Exit"    -> s.stack # <<>>
 =============================================================================
